@@ -158,6 +158,19 @@ def tr_incoming(ctx, kind):
     tr, conns, members = mk_transport(ctx)
     newc = ctx.alloc(PObj('TcpConnection', {'state': CONNECTED, 'name': 'incoming', 'sendRandKey': None}))
     ctx.setcell(ctx.cell(tr).fields['_unknownConnections'], GSet([(True, newc, True)]))
+    # observers that joined earlier: their ids were issued from the counter (each below its current value, pairwise different)
+    from pyvc.builtins_ import StrOf
+    counter = ctx.cell(tr).fields['_readonlyNodesCounter']
+    old_obs = []
+    for j in range(2):
+        e, pres = FreshInt('observerId%d' % j), FreshBool('observerPresent%d' % j)
+        ctx.assume(And(e >= 0, e < counter))
+        oc = ctx.alloc(PObj('TcpConnection', {'state': CONNECTED, 'name': 'observer%d' % j}))
+        old_obs.append((pres, e, RNode(StrOf(e)), oc))
+    ctx.assume(old_obs[0][1] != old_obs[1][1])
+    ctx.setcell(ctx.cell(tr).fields['_readonlyNodes'], GSet([(p_, n_, True) for p_, e_, n_, c_ in old_obs]))
+    cc = ctx.cell(ctx.cell(tr).fields['_connections'])
+    ctx.setcell(ctx.cell(tr).fields['_connections'], KVDict(cc.entries + [(p_, n_, c_) for p_, e_, n_, c_ in old_obs]))
     if kind == 'address':
         idx = FreshInt('claimedNode')
         ctx.track('claimedNode', idx)
@@ -188,6 +201,11 @@ def tr_incoming(ctx, kind):
             ctx.prove(not any(c[0] == 'cb:onReadonlyNodeConnected' for c in cbs), 'C14+C18:O14.1.member-is-not-an-observer')
         else:
             ctx.prove(isinstance(node, RNode), 'C14+C18:O14.1.observer-gets-a-fresh-non-member-node')
+            if isinstance(node, RNode):
+                ctx.prove(And(*[Not(And(p_, I.equals(node, n_))) for p_, e_, n_, c_ in old_obs]), 'C14+C18:O14.1.observer-id-not-shared-with-a-connected-observer')
+                for p_, e_, n_, c_ in old_obs:
+                    still = Or(*[And(pp, I.equals(k, n_)) for pp, k, v in F_(ctx, tr, '_connections').entries if isinstance(v, Ref) and v.addr == c_.addr])
+                    ctx.prove(Implies(p_, still), 'C14+C18:O14.1.earlier-observers-keep-their-connections')
             ro = F_(ctx, tr, '_readonlyNodes')
             ctx.prove(Or(*[And(p, I.equals(k, node)) for p, k, v in ro.entries]) if node is not None else False, 'C14+C18:O14.1.observer-registered')
             ctx.prove(len([c for c in cbs if c[0] == 'cb:onReadonlyNodeConnected']) == 1 and not any(c[0] == 'cb:onNodeConnected' for c in cbs),
@@ -469,5 +487,47 @@ def _mut_ignore_live(fn):
     for s in list(fn.body):
         if isinstance(s, ast.If) and any(isinstance(x, ast.Attribute) and x.attr == 'DISCONNECTED' for x in ast.walk(s.test)):
             fn.body.remove(s)
+            cnt += 1
+    return cnt
+
+
+@unit(name='transport.replacedConnection', relpath=TRMOD, qual=['%s._onIncomingMessageReceived' % CLS, '%s._onDisconnected' % CLS, '%s._connToNode' % CLS], props=['C14'],
+      kind='three calls in sequence on one transport (a scripted history over the real functions)',
+      doc='a stale connection replaced by a new incoming one: after a member re-dials and its new connection is bound, the later death of the old '
+          'connection neither reports the member disconnected nor triggers a reconnect - notifications follow the live connection',
+      canaries=[('scan-by-claimed-node', lambda mod: mutate_function(mod, '%s._onDisconnected' % CLS, _mut_disconnect_reports_any), ['O14.5.stale-connection-death-is-silent'])])
+def tr_replaced_connection(ctx):
+    tr, conns, members = mk_transport(ctx)
+    idx = FreshInt('member')
+    ctx.assume(And(idx >= 0, idx < U))
+    ctx.assume(Or(*[And(idx == i, members[i]) for i in range(U)]))
+    # the member currently has no outgoing connection object of ours (it is the side that dials us)
+    ctx.setcell(ctx.cell(tr).fields['_connections'], KVDict([]))
+    A = ctx.alloc(PObj('TcpConnection', {'state': CONNECTED, 'name': 'old-incoming', 'sendRandKey': None}))
+    B = ctx.alloc(PObj('TcpConnection', {'state': CONNECTED, 'name': 'new-incoming', 'sendRandKey': None}))
+    ctx.setcell(ctx.cell(tr).fields['_unknownConnections'], GSet([(True, A, True), (True, B, True)]))
+    o1, _, I1 = run_tr(ctx, tr, '_onIncomingMessageReceived', [A, NodeId(idx)])
+    o2, _, I2 = run_tr(ctx, tr, '_onIncomingMessageReceived', [B, NodeId(idx)])
+    ctx.prove(o1 == 'ok' and o2 == 'ok', 'C14:O14.1.rebind.no-exception')
+    bound = [(p, k, v) for p, k, v in F_(ctx, tr, '_connections').entries if p is not False and I2.equals(k, NodeV(idx)) is not False]
+    ctx.prove(len([b for b in bound if isinstance(b[2], Ref) and b[2].addr == B.addr]) == 1 and
+              not any(isinstance(b[2], Ref) and b[2].addr == A.addr and b[0] is True for b in bound), 'C14:O14.1.new-connection-replaces-the-old-binding')
+    before = len(ctx.glist('cb'))
+    # the old connection dies later (late RST / read timeout)
+    ctx.setcell(A, ctx.cell(A).with_field('state', DISCONNECTED))
+    o3, _, I3 = run_tr(ctx, tr, '_onDisconnected', [A])
+    ctx.prove(o3 == 'ok', 'C14:O14.5.stale.no-exception', info=o3)
+    after = ctx.glist('cb')[before:]
+    ctx.prove(len(after) == 0, 'C14:O14.5.stale-connection-death-is-silent', info=repr([c[0] for c in after]))
+    ctx.prove(not any(o[0] == 'connect' for o in ctx.glist('conn_ops')), 'C14:O14.5.stale-connection-death-triggers-no-reconnect')
+    still = [b for b in F_(ctx, tr, '_connections').entries if isinstance(b[2], Ref) and b[2].addr == B.addr and b[0] is True]
+    ctx.prove(len(still) == 1, 'C14:O14.5.live-connection-stays-bound')
+
+
+def _mut_disconnect_reports_any(fn):
+    cnt = 0
+    for n in ast.walk(fn):
+        if isinstance(n, ast.Assign) and isinstance(n.value, ast.Call) and isinstance(n.value.func, ast.Attribute) and n.value.func.attr == '_connToNode':
+            n.value = ast.parse('next(iter(self._nodes), None)').body[0].value
             cnt += 1
     return cnt
